@@ -295,11 +295,18 @@ func (e *vEnv) quiesce() {
 }
 
 type vRes struct {
-	id  int
-	env *vEnv
+	id       int
+	env      *vEnv
+	closeErr bool
 }
 
+var errVerifClose = errors.New("close failed")
+
 func (r *vRes) Close() error {
+	if r.closeErr {
+		r.env.log(r.env.self(), kEnd, 1, r.id, 0, 1)
+		return errVerifClose
+	}
 	r.env.log(r.env.self(), kEnd, 1, r.id, 0, 0)
 	return nil
 }
@@ -541,7 +548,10 @@ func vRun(c *vCase) any {
 			t := 999
 			if th != nil {
 				cur, t = env.curOp(th), th.id
-				env.waitGate(th, cur.B) // other goroutines now run into p.lock
+			}
+			env.log(t, kBegin, 3, 0, nowMs(), 2) // the create callback has started
+			if th != nil {
+				env.waitGate(th, cur.B) // other goroutines now run into p.lock (or into create, if it is not held)
 			}
 			if cur.A != 0 {
 				env.log(t, kBegin, 3, 0, nowMs(), 1)
@@ -639,13 +649,16 @@ func vRun(c *vCase) any {
 					env.log(th.id, kEnd, 0, op.A, 0, 1)
 					return nil, errVerifCreate
 				}
-				if op.C >= 2 {
+				if op.C == 2 {
 					env.log(th.id, kEnd, 0, op.A, 0, 2)
 					panic("verif: create panics")
 				}
 				id := int(atomic.AddInt32(&nextID, 1))
+				if op.C == 3 { // this resource's Close() will return an error; the handle says so
+					id += 1000
+				}
 				env.log(th.id, kEnd, 0, op.A, id, 0)
-				return &vRes{id: id, env: env}, nil
+				return &vRes{id: id, env: env, closeErr: op.C == 3}, nil
 			})
 			if err != nil {
 				env.log(th.id, kRet, 0, op.A, 0, 1)
